@@ -180,8 +180,10 @@ def make_target(run):
         if a == "T":
             # improvement exactly equal to the sufficient-improvement threshold of the step in progress
             mesh = run.cur_poll["mesh"] if run.cur_poll is not None else (run.probes[-1]["mesh"] if run.probes else 1.0)
-            tf = float(run.user_opts.get("tol_fun", 1e-3))
-            return run.m - max(mesh ** 1.5, tf)
+            uo = run.user_opts
+            tf = float(uo.get("tol_fun", 1e-3))
+            s_ = float(uo.get("tol_improvement", 1)) * mesh ** float(uo.get("forcing_exponent", 1.5))
+            return run.m - (max(s_, tf) if uo.get("sloppy_improvement", True) else s_)
         return {"S": run.m - 2.0, "I": run.m - 1e-9, "F": run.m + 1.0, "E": run.m}[a]
 
     def f(x):
